@@ -8,6 +8,16 @@ VERIF = os.path.dirname(os.path.dirname(os.path.abspath(__file__)))
 
 # property -> (category, technique, text, note, design_ref)
 CHECKS = {
+    'C10': ('exploration', 'reference matrix built by the harness from the recorded add_* calls (own lattice enumerator, explicit JW '
+            'matrices) compared with every representation of the model in one basis',
+            'Random CouplingModels (on-site, two-site, multi-site, exponentially decaying, local terms; real/complex/site-'
+            'dependent strengths; plus_hc / explicit_plus_hc) on chains, ladders and small 2D lattices with spin, boson, fermion '
+            'and mixed sites: calc_H_MPO, term lists, MPOGraph.from_term_list, calc_H_bond and the MPO<->bond conversions, '
+            'get_numpy_Hamiltonian / get_scipy_sparse_Hamiltonian (both basis conventions), ExactDiag, sort_legcharges and '
+            'group_sites all have to reproduce the reference matrix; infinite models are compared through energy densities of '
+            'product states; predefined models (by reflection) must be Hermitian with agreeing representations.',
+            'C19 and C12; Hilbert-space dimension <= 1100; explicit_plus_hc models are generated Hermitian as documented',
+            'DESIGN.md §C10'),
     'C12': ('exploration', 'dense operator identities evaluated on every configuration of the (finite, exhaustively enumerated) '
             'site-option grid; kron/JW reference for grouped sites; explicit Jordan-Wigner matrices for many-body CAR',
             'Every site class x parameters x conserve option x sort_charge: operators mapped through perm equal the textbook '
